@@ -222,30 +222,34 @@ def _has_return(st):
 
 
 def _tail_convertible(stmts):
-    """every return is the last statement of the body or of an if/else arm whose if is followed (if at all) only by
-    code that runs when the arm did not return"""
-    for i, st in enumerate(stmts):
-        if isinstance(st, ast.Return):
-            return i == len(stmts) - 1
-        if _has_return(st):
-            if not isinstance(st, ast.If):
-                return False
-            rest = stmts[i + 1:]
-            if _has_return_list(st.body) and not (_always_returns(st.body) or not rest):
-                return False
-            if _has_return_list(st.orelse) and not (_always_returns(st.orelse) or not rest):
-                return False
-            if not _tail_convertible(st.body) and _has_return_list(st.body):
-                return False
-            if st.orelse and _has_return_list(st.orelse) and not _tail_convertible(st.orelse):
-                return False
-            if rest:
-                # exactly one of the arms may fall through to the rest
-                if _always_returns(st.body) and _always_returns(st.orelse):
+    """every return sits under if-nesting only (no loop, try or with around it) and every way through the statements
+    ends in a return: the returns can then be turned into assignments, the code behind a returning `if` being moved
+    (copied, where both arms can fall through) into the arms"""
+    def only_ifs(sts):
+        for st in sts:
+            if isinstance(st, ast.Return):
+                continue
+            if _has_return(st):
+                if not isinstance(st, ast.If):
                     return False
-                return _tail_convertible(rest)
-            return True
-    return True
+                if not only_ifs(st.body) or not only_ifs(st.orelse):
+                    return False
+        return True
+    if not only_ifs(stmts) or not _always_returns(stmts):
+        return False
+    try:
+        return _count_all(_tailify(copy.deepcopy(stmts), ast.Name(id="_t", ctx=ast.Store()))) <= 80
+    except RecursionError:
+        return False
+
+
+def _count_all(stmts):
+    n = 0
+    for s_ in stmts:
+        n += 1
+        for fld in ("body", "orelse", "finalbody"):
+            n += _count_all([x for x in getattr(s_, fld, None) or [] if isinstance(x, ast.stmt)])
+    return n
 
 
 def _has_return_list(stmts):
@@ -253,7 +257,7 @@ def _has_return_list(stmts):
 
 
 def _tailify(stmts, target):
-    """rewrite `return e` as `<target> = e`, moving the code after a returning guard into the other arm"""
+    """rewrite `return e` as `<target> = e`; the code after an `if` that can return goes into the arms that fall through"""
     out = []
     for i, st in enumerate(stmts):
         if isinstance(st, ast.Return):
@@ -265,16 +269,13 @@ def _tailify(stmts, target):
         if isinstance(st, ast.If) and _has_return(st):
             rest = stmts[i + 1:]
             body_ret, else_ret = _always_returns(st.body), _always_returns(st.orelse)
-            if rest and body_ret and not else_ret:
-                new = ast.If(test=st.test, body=_tailify(st.body, target), orelse=_tailify(list(st.orelse) + rest, target))
-            elif rest and else_ret and not body_ret:
-                new = ast.If(test=st.test, body=_tailify(list(st.body) + rest, target), orelse=_tailify(st.orelse, target))
-            else:
-                new = ast.If(test=st.test, body=_tailify(st.body, target), orelse=_tailify(st.orelse, target) if st.orelse else [])
-                out.append(new)
-                out.extend(_tailify(rest, target))
-                return out
-            out.append(new)
+            n_fall = (0 if body_ret else 1) + (0 if else_ret else 1)
+
+            def cont():
+                return copy.deepcopy(rest) if n_fall > 1 else list(rest)
+            body = _tailify(list(st.body) + ([] if body_ret else cont()), target)
+            orelse = _tailify(list(st.orelse) + ([] if else_ret else cont()), target)
+            out.append(ast.If(test=st.test, body=body or [ast.Pass()], orelse=orelse))
             return out
         out.append(st)
     return out
@@ -418,11 +419,16 @@ class _Inliner:
         if not hg <= cg:
             return None
         # not recursive, does not call the caller
+        own_cls = self.qual.get(id(h), (None, None))[1]
+        self_name = h.args.args[0].arg if own_cls is not None and h.args.args else None
         for n in _own_nodes(h):
             if isinstance(n, ast.Call):
                 f = n.func
                 nm = f.attr if isinstance(f, ast.Attribute) else f.id if isinstance(f, ast.Name) else None
                 if nm in (h.name, caller.name):
+                    # x.decode(..) on some other object, or Base.decode(self, ..) of a base class, is not the caller
+                    if isinstance(f, ast.Attribute) and not (isinstance(f.value, ast.Name) and (f.value.id == self_name or (own_cls is not None and f.value.id == own_cls.name))):
+                        continue
                     return None
         return _simple_shape(h)
 
@@ -1152,6 +1158,14 @@ def _sig(node, names):
     return _comp_signature(node, names)
 
 
+_NEGATED_OP = {ast.Eq: ast.NotEq, ast.NotEq: ast.Eq, ast.Is: ast.IsNot, ast.IsNot: ast.Is, ast.In: ast.NotIn, ast.NotIn: ast.In}
+
+
+def _int_like(cmp_):
+    """== / != / is / in can be negated by swapping the operator for any operands (no NaN ordering involved)"""
+    return True
+
+
 def _setdefault_call(st):
     """the single d.setdefault(k, <empty container or constant>) call of a simple statement whose other parts have no effects"""
     calls = [n for n in ast.walk(st) if isinstance(n, ast.Call)]
@@ -1292,6 +1306,63 @@ def _user_flag_loops(stmts, fn, new_local):
     return out, done
 
 
+def _const_flag_to_control(stmts, fn, new_local):
+    """if ..: F = False / else: ..; F = True      (F a new local, assigned a constant as the last statement of every arm)
+       if not F: return                           (the arm of the test always leaves)
+    ->  the leaving statements take the place of the assignments they are selected by, the others are dropped"""
+    out = list(stmts)
+    done = 0
+    for i, st in enumerate(out):
+        for fld in ("body", "orelse", "finalbody"):
+            blk = getattr(st, fld, None)
+            if isinstance(blk, list) and blk and isinstance(blk[0], ast.stmt) and not isinstance(st, _SCOPES):
+                nb, k = _const_flag_to_control(blk, fn, new_local)
+                setattr(st, fld, nb)
+                done += k
+        for h in getattr(st, "handlers", []) or []:
+            h.body, k = _const_flag_to_control(h.body, fn, new_local)
+            done += k
+    i = 0
+    while i + 1 < len(out):
+        st, nxt = out[i], out[i + 1]
+        if isinstance(st, ast.If) and isinstance(nxt, ast.If) and not nxt.orelse and _always_returns(nxt.body):
+            t = nxt.test
+            flag, when = None, None
+            if isinstance(t, ast.Name):
+                flag, when = t.id, True
+            elif isinstance(t, ast.UnaryOp) and isinstance(t.op, ast.Not) and isinstance(t.operand, ast.Name):
+                flag, when = t.operand.id, False
+            if flag and new_local(flag):
+                leaves = []
+
+                def collect(sts):
+                    """-> True if every way through sts ends in `flag = <bool constant>`"""
+                    if not sts:
+                        return False
+                    last = sts[-1]
+                    if isinstance(last, ast.Assign) and len(last.targets) == 1 and isinstance(last.targets[0], ast.Name) and last.targets[0].id == flag \
+                            and isinstance(last.value, ast.Constant) and isinstance(last.value.value, bool):
+                        leaves.append((sts, last))
+                        return True
+                    if isinstance(last, ast.If):
+                        return collect(last.body) and collect(last.orelse)
+                    return False
+                stores = [n for n in ast.walk(fn) if isinstance(n, ast.Name) and n.id == flag and isinstance(n.ctx, (ast.Store, ast.Del))]
+                loads = [n for n in ast.walk(fn) if isinstance(n, ast.Name) and n.id == flag and isinstance(n.ctx, ast.Load)]
+                if collect([st]) and len(stores) == len(leaves) and len(loads) == 1:
+                    for sts, last in leaves:
+                        k = sts.index(last)
+                        if last.value.value == when:
+                            sts[k:k + 1] = copy.deepcopy(nxt.body)
+                        else:
+                            sts[k:k + 1] = [] if len(sts) > 1 else [ast.copy_location(ast.Pass(), last)]
+                    del out[i + 1]
+                    done += 1
+                    continue
+        i += 1
+    return out, done
+
+
 def _loop_level(body):
     """statements (any depth) that belong to this loop, not to a loop nested in it"""
     res = []
@@ -1347,7 +1418,7 @@ def _search_returns_to_for_else(stmts, tail, is_new):
 def construct_signatures(fn):
     """kind -> sorted signatures of the statement-level constructs the respelling pass knows, for the reference"""
     names = {n.id for n in ast.walk(fn) if isinstance(n, ast.Name) and isinstance(n.ctx, ast.Store)}
-    out = {"ifexp": [], "tupleassign": [], "unpack1": [], "chained": [], "nameloop": [], "while": [], "storealias": [], "rowloop": [], "searchreturn": [], "setdefault": [], "unpackcall": [], "guardcontinue": []}
+    out = {"ifexp": [], "tupleassign": [], "unpack1": [], "chained": [], "nameloop": [], "while": [], "storealias": [], "rowloop": [], "searchreturn": [], "setdefault": [], "unpackcall": [], "guardcontinue": [], "whiletrue": [], "supercall": []}
     for n in _own_nodes(fn):
         if isinstance(n, ast.Assign):
             if isinstance(n.value, ast.IfExp):
@@ -1367,6 +1438,11 @@ def construct_signatures(fn):
             out["nameloop"].append(_sig(n, names))
         elif isinstance(n, ast.For) and isinstance(n.iter, (ast.Tuple, ast.List)):
             out["rowloop"].append(_sig(n, names))
+        if _is_super_call(n):
+            out["supercall"].append(_sig(n, names))
+        if isinstance(n, ast.While) and isinstance(n.test, ast.Constant) and n.test.value and n.body and isinstance(n.body[0], ast.If) and not n.body[0].orelse \
+                and len(n.body[0].body) == 1 and isinstance(n.body[0].body[0], ast.Break):
+            out["whiletrue"].append(_sig(n.body[0].test, names))
         if isinstance(n, ast.If) and not n.orelse and n.body and isinstance(n.body[-1], ast.Continue):
             out["guardcontinue"].append(_sig(n.test, names))
         if isinstance(n, ast.For) and _search_return_shape(n):
@@ -1376,6 +1452,69 @@ def construct_signatures(fn):
         elif isinstance(n, ast.While):
             out["while"].append(_sig(n.test, names))
     return {k: sorted(v) for k, v in out.items() if v}
+
+
+def _is_super_call(n):
+    return isinstance(n, ast.Call) and isinstance(n.func, ast.Attribute) and isinstance(n.func.value, ast.Call) and isinstance(n.func.value.func, ast.Name) \
+        and n.func.value.func.id == "super" and not n.func.value.keywords
+
+
+def _explicit_base_calls(tree, fn, q, is_new):
+    """super().m(..) / super(C, self).m(..)  (new)  ->  B.m(self, ..)  where B is the base class the call reaches: the only
+    base of C, or - with several bases - the first one that (within this module) defines or inherits m"""
+    if "." not in q:
+        return 0
+    cname = q.split(".")[-2]
+    classes = {c.name: c for c in ast.walk(tree) if isinstance(c, ast.ClassDef)}
+    cls = classes.get(cname)
+    if cls is None or not fn.args.args:
+        return 0
+    self_name = fn.args.args[0].arg
+
+    def defines(cn, meth, seen=()):
+        c = classes.get(cn)
+        if c is None or cn in seen:
+            return None                 # a class of another module: unknown
+        if any(isinstance(x, ast.FunctionDef) and x.name == meth for x in c.body):
+            return True
+        res = False
+        for b in c.bases:
+            if not isinstance(b, ast.Name):
+                return None
+            r = defines(b.id, meth, seen + (cn,))
+            if r is None:
+                return None
+            res = res or r
+        return res
+    n_done = 0
+    for call in [n for n in ast.walk(fn) if _is_super_call(n)]:
+        sc = call.func.value
+        if sc.args and not (len(sc.args) == 2 and isinstance(sc.args[0], ast.Name) and sc.args[0].id == cname and isinstance(sc.args[1], ast.Name) and sc.args[1].id == self_name):
+            continue
+        if not is_new("supercall", call):
+            continue
+        meth = call.func.attr
+        bases = [b for b in cls.bases]
+        if not bases or not all(isinstance(b, ast.Name) for b in bases):
+            continue
+        target = None
+        if len(bases) == 1:
+            target = bases[0].id
+        else:
+            for b in bases:
+                r = defines(b.id, meth)
+                if r is None:
+                    target = None
+                    break
+                if r:
+                    target = b.id
+                    break
+        if target is None:
+            continue
+        call.func = ast.copy_location(ast.Attribute(value=ast.copy_location(ast.Name(id=target, ctx=ast.Load()), call), attr=meth, ctx=ast.Load()), call)
+        call.args = [ast.copy_location(ast.Name(id=self_name, ctx=ast.Load()), call)] + list(call.args)
+        n_done += 1
+    return n_done
 
 
 def respell_new_constructs(tree, modname, reference, qualnames_fn):
@@ -1411,8 +1550,12 @@ def respell_new_constructs(tree, modname, reference, qualnames_fn):
                 return False
             return True
         aliases = {}
+        if len(cur.get("supercall", [])) > len(have.get("supercall", [])):
+            count += _explicit_base_calls(tree, fn, q, is_new)
         if names - known_locals:
             fn.body, k_ = _user_flag_loops(fn.body, fn, lambda nm: nm not in known_locals)
+            count += k_
+            fn.body, k_ = _const_flag_to_control(fn.body, fn, lambda nm: nm not in known_locals)
             count += k_
         if len(cur.get("searchreturn", [])) > len(have.get("searchreturn", [])):
             fn.body, k_ = _search_returns_to_for_else(fn.body, True, is_new)
@@ -1425,6 +1568,21 @@ def respell_new_constructs(tree, modname, reference, qualnames_fn):
             stmts = list(stmts)
             while i < len(stmts):
                 st = stmts[i]
+                # while True: if c: break; BODY   (new)   ->   while not c: BODY
+                if isinstance(st, ast.While) and isinstance(st.test, ast.Constant) and st.test.value and not st.orelse and st.body \
+                        and isinstance(st.body[0], ast.If) and not st.body[0].orelse and len(st.body[0].body) == 1 and isinstance(st.body[0].body[0], ast.Break) \
+                        and len(st.body) > 1 and is_new("whiletrue", st.body[0].test):
+                    c_ = st.body[0].test
+                    if isinstance(c_, ast.UnaryOp) and isinstance(c_.op, ast.Not):
+                        st.test = c_.operand
+                    elif isinstance(c_, ast.Compare) and len(c_.ops) == 1 and type(c_.ops[0]) in _NEGATED_OP and _int_like(c_):
+                        st.test = ast.Compare(left=c_.left, ops=[_NEGATED_OP[type(c_.ops[0])]()], comparators=c_.comparators)
+                    else:
+                        st.test = ast.UnaryOp(op=ast.Not(), operand=c_)
+                    ast.copy_location(st.test, c_)
+                    ast.fix_missing_locations(st.test)
+                    del st.body[0]
+                    count += 1
                 # if c: S; continue   REST      (directly in a loop body, new)   ->   if c: S  else: REST
                 if loop_body and isinstance(st, ast.If) and not st.orelse and st.body and isinstance(st.body[-1], ast.Continue) and i + 1 < len(stmts) \
                         and is_new("guardcontinue", st.test):
